@@ -170,6 +170,8 @@ class W:
     # ---- execution of one item; returns the reply in the model's shape
     def run(self, it, limit=10.0):
         g = self.g
+        if it and it[0] == 49:
+            limit = 600.0          # copies of / garbage collections in a large process take their time; an interrupted one would lose the executor's own references
         try:
             with time_limit(limit):
                 return self._run(it)
@@ -257,6 +259,36 @@ class W:
                 o = C(g.ProxyBlock)(uuid=uu)
             else:
                 o = C(g.Symbol)(self.name(nm), uuid=uu, payload=self.payload_py(p))
+            self.adopt(n, kind, o)
+            return [0]
+        if c == 53:
+            # an attribute assignment that was refused when the history was generated: attempted again, refused again
+            try:
+                self._run(it[1:])
+            except Exception:  # noqa: BLE001
+                return [0]
+            return [-1, 997]
+        if c == 51:
+            # a child constructed WITH its parent: Module(ir=..), Section(module=..), ByteInterval(section=..), CodeBlock(byte_interval=..),
+            # ProxyBlock(module=..), Symbol(module=..) -- another route to `new` + `child.parent = p`
+            _, n, k, u, a, sz, off, nm, p, par = it
+            kind = KINDS[k]
+            uu = uuidlib.UUID(int=u)
+            P = O[par]
+            if kind == "Module":
+                o = g.Module(name="m%d" % n, uuid=uu, ir=P)
+            elif kind == "Section":
+                o = g.Section(name="s%d" % n, uuid=uu, module=P)
+            elif kind == "ByteInterval":
+                o = g.ByteInterval(address=(a[0] if a else None), size=sz, uuid=uu, section=P)
+            elif kind == "CodeBlock":
+                o = g.CodeBlock(size=sz, offset=off, uuid=uu, byte_interval=P)
+            elif kind == "DataBlock":
+                o = g.DataBlock(size=sz, offset=off, uuid=uu, byte_interval=P)
+            elif kind == "ProxyBlock":
+                o = g.ProxyBlock(uuid=uu, module=P)
+            else:
+                o = g.Symbol(self.name(nm), uuid=uu, payload=self.payload_py(p), module=P)
             self.adopt(n, kind, o)
             return [0]
         if c == 50:
@@ -388,6 +420,9 @@ class W:
             self.expr_num = {id(e): k for k, e in exprs2.items()}
             self.expr_num.update({id(e): k for e, k in stored2})
             self.forms["world-continued-on-a-copy:" + how] = self.forms.get("world-continued-on-a-copy:" + how, 0) + 1
+            return [0]
+        if c == 33:
+            del O[it[1]].modules[slice(it[2][0] if it[2] else None, it[3][0] if it[3] else None, it[4])]
             return [0]
         if c == 32:
             # an EXTENDED slice (step other than 1): ir.modules[a:b:c] = values
